@@ -35,6 +35,12 @@ CHECKS = {
  "C17": ("model-based testing through the CLI: proptest-generated programs establish a random machine state and print it (in the program and at an INT 3 prompt); stdout is tokenised back into register/flag/memory events and compared with the reference machine; prints removed vs present must end in the same state; ranges leaving the 1 MiB space must be reported",
          "exploration; about 10^3 (quick) / 2*10^4 (thorough) CLI runs with ~10 print observations each, boundary range lengths and DS-relative ranges constructed, output format (four upper-case hex digits, 0/1 flags, two-digit cells, 16 per row) enforced by the parser",
          "trusted: reference machine for MOV/PUSH/POPF/SAHF/flag control, output tokenizer; layout (tabs/blank separators) normalised", "3/C17"),
+ "C08": ("model-based testing of control flow: exhaustive enumeration of small structured programs (all main bodies of <= 3/4 tokens over a 13-symbol alphabet x 6 structural variants) plus proptest-generated larger ones; the executed-instruction index trace, stop reason, marker output and final machine of the real Preprocessor+Interpreter under a transcribed driver loop are compared with a reference interpreter over the AST, and the CLI's stdout with the reference marker trace",
+         "exploration; small scopes exhaustive (about 1.4*10^4 programs quick, 1.8*10^5 thorough), larger programs sampled at L2 and through the real driver loop (CLI); labels before/after instructions, before procedures, at end of file, 'start' first/middle/last are generated by construction and their population asserted",
+         "trusted: reference interpreter over the AST (flattening rule: one instruction per source instruction plus an implied ret per procedure and the driver's final hlt), structured generator (terminating by construction); the transcribed loop is tied to the real loop by the CLI part", "3/C08"),
+ "C20": ("model-based testing through the CLI with scripted stdin: proptest-generated terminating programs x stepping mode (-i, trap flag set/cleared in mid-program, INT 3) x prompt scripts (next/print/garbage/quit, premature end of input); tokenised stdout must equal the reference event sequence; differential check of -i with all prompts answered n against the plain run; output cap turns a spinning prompt into a violation",
+         "exploration; about 1.1*10^3 (quick) / 2.3*10^4 (thorough) CLI runs; prompt discipline (exactly one announcement per executed instruction naming its line, prints do not advance, n advances one instruction, q/quit/EOF terminate with status 0) decided by event-sequence equality",
+         "trusted: reference interpreter incl. prompt protocol, stdout tokenizer; stdin is a pipe or closed; an extra 'Exiting' line at end of input is accepted", "3/C20"),
 }
 
 REASON_WIP = "check not built yet in this revision of /verif (work in progress; see DESIGN.md section 7 for the order of work)"
